@@ -90,7 +90,8 @@ class History:
                       base_back=step.get('base_back', 0),
                       touch_shared=step.get('shared'),
                       base_branch=step.get('base_branch'),
-                      same_as=step.get('same_as'))
+                      same_as=step.get('same_as'),
+                      title=step.get('title', 'title'))
         elif op == 'push_src':
             w.push_src(step['pr'], step['kind'])
         elif op == 'approve':
@@ -286,6 +287,23 @@ class History:
                 w.g('push', '-q', 'origin', '%s:refs/tags/%s' % (
                     w.heads()[base], action['name']), actor='third',
                     check=False)
+        elif kind == 'new_w':
+            # the author of ANOTHER pull request publishes a hand-made
+            # integration branch for it (the documented way out of a
+            # conflict), or adds a commit to the existing one
+            info = w.prs.get(action.get('pr'))
+            chain = [b for b in w.chain if b in w.heads()]
+            if not info or not chain:
+                return
+            name = 'w/%s/%s' % (chain[-1].split('/')[1], info['src'])
+            w.fetch()
+            base = name if name in w.heads() else chain[-1]
+            w.g('checkout', '-q', '-B', 'vf-third', 'origin/' + base)
+            w.write('third_w_%d.txt' % w.clock, 'by hand\n')
+            w.commit('hand-made integration work', author=info['author'])
+            w.push('vf-third:refs/heads/' + name, actor='third',
+                   check=False)
+            w.g('checkout', '-q', '--detach')
         elif kind in ('push_src', 'force_src'):
             info = w.prs.get(action.get('pr'))
             if not info or info['src'] not in w.heads():
